@@ -942,7 +942,7 @@ func TestVerifC20(t *testing.T) {
 	defer os.RemoveAll(base)
 
 	c20Trees, c20Expected, c20Lookalikes, c20MultiDirective := 0, 0, 0, 0
-	n := run.N(800, 40000)
+	n := run.N(800, 30000)
 	run.Cases(n, func(c *vlib.Case) {
 		g := &c20Gen{r: c.R, decoys: map[string]string{}, catSeen: map[string]int{}}
 		tree := g.tree()
